@@ -49,7 +49,7 @@ TRUSTED_EXTRA = ['harness/c18.py: ast visitor reading except clauses (fail-close
 
 PROP = 'C18'
 KF_CLEANUP, KF_EXIT, KF_BIGINT, KF_HANG = 'KF-C18-2', 'KF-C18-3', 'KF-C18-4', 'KF-C18-5'
-KF_NUL, KF_LONG_NAME = 'KF-C18-8', 'KF-C18-12'
+KF_NUL, KF_LONG_NAME, KF_COPY_INTO_SELF = 'KF-C18-8', 'KF-C18-12', 'KF-C18-13'
 
 # ---------------------------------------------------------------------------------------------
 # exception classes of the model  (Coq constructor -> how to get the real class)
@@ -2124,6 +2124,14 @@ def kf_bigint_pred(text):
     return False
 
 
+_DCO_ROOT = re.compile(r'dir-contents-of\s+(-rel-\S+\s+)?(\'\'|""|\'\.\'|"\."|\'\./\'|"\./"|\.|\./)(\s|$)')
+
+
+def kf_copy_into_self_pred(text):
+    """`dir-contents-of` of the root directory of a relativity (PATH token empty, '.' or './')"""
+    return bool(_DCO_ROOT.search(text))
+
+
 def kf_long_name_pred(text):
     """some path component (run of characters other than white space, quotes and '/') is longer than 255 bytes"""
     return any(len(c.encode('utf-8', 'replace')) > 255 for c in re.split(r'[\s/\'"]+', text))
@@ -2267,6 +2275,8 @@ CORPUS_CASES = [
     ('N8b glob pattern without a path component for the `path` file matcher (FIX-C18-7)', "[assert]\nexists -rel-home d : path './'\n", None),
     ('N9 file name longer than 255 bytes in cd (KF-C18-12)', '[setup]\ncd -rel-act %s\n' % ('a' * 300), KF_LONG_NAME),
     ('N9b the same as program of the act phase', '[act]\n%s\n' % ('n' * 256), KF_LONG_NAME),
+    ('N10 a directory copied into its own sub directory (KF-C18-13)',
+     "[setup]\ndir -rel-act f1 = {\ndir gd0 = dir-contents-of -rel-act ''\n}\n", KF_COPY_INTO_SELF),
     ('unknown instruction', '[setup]\nno-such-instruction x\n', None),
     ('unknown phase', '[nope]\nx\n', None),
     ('unterminated quote', "[setup]\nfile f.txt = 'abc\n", None),
@@ -2303,6 +2313,8 @@ def run_one_fuzz(runner, text, res, label, offending=None):
     elif (exc is ValueError and 'integer string conversion' in str(pr.exception)
           or internal and last.startswith('ValueError: Exceeds the limit')) and kf_bigint_pred(text):
         finding = KF_BIGINT
+    elif internal and last.startswith('RecursionError') and 'shutil.py' in pr.err and 'copytree' in pr.err and kf_copy_into_self_pred(text):
+        finding = KF_COPY_INTO_SELF
     elif internal and last.startswith('OSError: [Errno 36] File name too long') and kf_long_name_pred(text):
         finding = KF_LONG_NAME
     elif (internal and (last.startswith('ValueError: embedded null byte') or last.strip() == 'embedded null byte')
